@@ -683,3 +683,40 @@ pub fn cleanup_scratch() {
     };
     let _ = std::fs::remove_dir_all(base.join(format!("verif-teos-{}", std::process::id())));
 }
+
+/// C02 at RPC granularity: is there, right now, an appointment or tracker of a still registered user
+/// that justifies submitting `tx`? Returns a description when there is none.
+pub fn send_is_unjustified(path: &PathBuf, tx: &Transaction) -> Option<String> {
+    let db = DbView::read(path);
+    let txid = tx.compute_txid();
+    for (uuid, t) in db.trackers.iter() {
+        if t.penalty == txid || t.dispute == txid {
+            let owner_present = db.appointments.get(uuid).map_or(false, |a| db.users.contains_key(&a.user));
+            if owner_present {
+                return None;
+            }
+        }
+    }
+    for a in db.appointments.values() {
+        if !db.users.contains_key(&a.user) {
+            continue;
+        }
+        for k in 1..=3u8 {
+            let d = crate::sim::txid_of(crate::sim::TxName::D(k));
+            if hex::encode(Locator::new(d).to_vec()) == a.locator {
+                if let Ok(p) = cryptography::decrypt(&a.blob, &d) {
+                    if p.compute_txid() == txid {
+                        return None;
+                    }
+                }
+            }
+        }
+    }
+    Some(format!(
+        "sendrawtransaction({}) while no appointment or tracker of a registered user justifies it (users: {}, appointments: {}, trackers: {})",
+        crate::sim::tx_label(&txid),
+        db.users.len(),
+        db.appointments.len(),
+        db.trackers.len()
+    ))
+}
